@@ -3,6 +3,11 @@
    and report the cases where they differ. *)
 let () =
   let mode = Sys.argv.(1) and file = Sys.argv.(2) in
+  if mode = "hs" then begin
+    let (n, bad) = Run_hs.run_file file in
+    Printf.printf "SUMMARY cases=%d mismatches=%d\n" n bad;
+    exit (if bad = 0 then 0 else 3)
+  end;
   if mode = "gbn" then begin
     let (n, bad) = Run_gbn.run_file file in
     Printf.printf "SUMMARY cases=%d mismatches=%d\n" n bad;
